@@ -10,6 +10,7 @@ import MoThreads.Driver.M6
 import MoThreads.Driver.M5
 import MoThreads.Driver.M7
 import MoThreads.Driver.M9
+import MoThreads.Driver.M10
 open MoThreads.Driver
 
 inductive Model
@@ -21,6 +22,7 @@ inductive Model
   | m5 (m : M5.Sim)
   | m7 (m : M7.Sim)
   | m9 (m : M9.Sim)
+  | m10 (m : M10.Sim)
 
 structure DState where
   runId : String := ""
@@ -47,6 +49,7 @@ def finish (d : DState) : IO Unit := do
     | .m5 m => IO.println s!"ok {d.runId} steps={m.steps}"
     | .m7 m => IO.println s!"ok {d.runId} steps={m.steps}"
     | .m9 m => IO.println s!"ok {d.runId} steps={m.steps}"
+    | .m10 m => IO.println s!"ok {d.runId} steps={m.steps}"
     | .none => IO.println s!"ok {d.runId} steps=0"
 
 def startRun (ws : List String) : Except String Model :=
@@ -58,6 +61,7 @@ def startRun (ws : List String) : Except String Model :=
   | _ :: _ :: "m3" :: _ => .ok (.m3 M3.start)
   | _ :: _ :: "m5" :: _ => .ok (.m5 M5.start)
   | _ :: _ :: "m9" :: _ => .ok (.m9 {})
+  | _ :: _ :: "m10" :: _ => .ok (.m10 {})
   | _ :: _ :: "m7" :: rest =>
     let fl := (kv rest "fails").splitOn "," |>.filterMap String.toNat? |>.map (· != 0)
     .ok (.m7 (M7.start ((kv rest "batch").toNat?.getD 1) fl))
@@ -126,6 +130,12 @@ partial def loop (h : IO.FS.Stream) (d : DState) : IO Unit := do
       | .m9 m =>
         match M9.feed m ws with
         | .ok m' => loop h { d with model := .m9 m' }
+        | .error e =>
+          IO.println s!"FAIL {d.runId} line={d.lineNo} {e}"
+          loop h { d with failed := true }
+      | .m10 m =>
+        match M10.feed m ws with
+        | .ok m' => loop h { d with model := .m10 m' }
         | .error e =>
           IO.println s!"FAIL {d.runId} line={d.lineNo} {e}"
           loop h { d with failed := true }
